@@ -65,10 +65,12 @@ Proof. intros. unfold blen in *. rewrite skipn_length. lia. Qed.
 
 Section Inv.
   Variable N : Z.   (* length of the whole input *)
+  Variable L : Z.   (* lower bound of all offsets considered (0 for totality; the start of a definition for locality) *)
+  Hypothesis HL : 0 <= L.
   Variable il id : Z -> bool.   (* non-ASCII classification *)
   Variable F : nat.             (* fuel *)
 
-  Definition okpos (p : position) : Prop := 0 <= p_offset p <= N.
+  Definition okpos (p : position) : Prop := L <= p_offset p <= N.
 
   (** offset of the character read last (Go: srcBufOffset + srcPos - lastCharLen) *)
   Definition tokoff (s : sstate) : Z := s_pos s - blen (s_last s).
@@ -78,14 +80,14 @@ Section Inv.
     (ch = EOF /\ s_last s = []) \/ (ch <> EOF /\ ch <> NOCHAR /\ 1 <= blen (s_last s)).
 
   Definition core (s : sstate) : Prop :=
-    s_pos s + blen (s_rest s) = N /\ Forall byte (s_rest s) /\ 0 <= tokoff s.
+    s_pos s + blen (s_rest s) = N /\ Forall byte (s_rest s) /\ L <= tokoff s.
 
   Definition ext (s s' : sstate) : Prop :=
     core s' /\ tokoff s <= tokoff s' /\ s_ws s' = s_ws s /\ (length (s_rest s') <= length (s_rest s))%nat.
 
   Definition sinv (s : sstate) : Prop := core s /\ (s_ch s = NOCHAR \/ chk (s_ch s) s).
 
-  Lemma core_bounds : forall s, core s -> 0 <= tokoff s <= N.
+  Lemma core_bounds : forall s, core s -> L <= tokoff s <= N.
   Proof.
     intros s (H1 & _ & H3). unfold tokoff in *. pose proof (blen_nonneg (s_rest s)).
     pose proof (blen_nonneg (s_last s)). lia.
